@@ -21,7 +21,11 @@ import (
 type Instance struct {
 	Bodies    []func() string
 	Invariant func() string
-	Expected  []string
+	// Expect returns what each thread must observe (what the same call observes
+	// when run alone). It is computed lazily, AFTER the first concurrent run of
+	// the scenario in a process, so that the first run meets cold package state
+	// (lazily initialised tables, empty caches).
+	Expect func() []string
 }
 
 // Scenario is a named generator of fresh instances.
@@ -50,18 +54,23 @@ func exprScenario(group, s string, ops []string, ctxs []int) Scenario {
 	var expected []string
 	return Scenario{Name: name, Group: group, Desc: "threads share one compiled expression; own navigators, different context nodes",
 		Make: func() *Instance {
+			// every execution starts from the same package state: an empty pattern cache
+			xpath.RegexpCache = xpath.NewLoadingCache(func(k interface{}) (interface{}, error) { return regexp.Compile(k.(string)) }, 64)
 			e, err := xpath.Compile(s)
 			if err != nil {
 				panic("scenario expression does not compile: " + s + ": " + err.Error())
 			}
-			if expected == nil {
-				// what each call observes alone, on a freshly compiled expression
-				for i := range ops {
-					fresh, _ := xpath.Compile(s)
-					expected = append(expected, run(fresh, ops[i], ctxs[i]))
+			in := &Instance{}
+			in.Expect = func() []string {
+				if expected == nil {
+					// what each call observes alone, on a freshly compiled expression
+					for i := range ops {
+						fresh, _ := xpath.Compile(s)
+						expected = append(expected, run(fresh, ops[i], ctxs[i]))
+					}
 				}
+				return expected
 			}
-			in := &Instance{Expected: expected}
 			for i := range ops {
 				op, ctx := ops[i], ctxs[i]
 				in.Bodies = append(in.Bodies, func() string { return run(e, op, ctx) })
@@ -117,14 +126,20 @@ func regexScenario(p1, p2 string, capacity int) Scenario {
 				}
 				in.Bodies = append(in.Bodies, body)
 			}
-			// expectations: each body alone on a fresh cache
-			if expected == nil {
-				for _, b := range in.Bodies {
-					xpath.RegexpCache = xpath.NewLoadingCache(func(k interface{}) (interface{}, error) { return regexp.Compile(k.(string)) }, capacity)
-					expected = append(expected, b())
+			bodies := in.Bodies
+			in.Expect = func() []string {
+				if expected == nil {
+					// each body alone on a fresh cache (the scenario's cache is swapped
+					// back afterwards)
+					saved := xpath.RegexpCache
+					for _, b := range bodies {
+						xpath.RegexpCache = xpath.NewLoadingCache(func(k interface{}) (interface{}, error) { return regexp.Compile(k.(string)) }, capacity)
+						expected = append(expected, b())
+					}
+					xpath.RegexpCache = saved
 				}
+				return expected
 			}
-			in.Expected = expected
 			c := xpath.NewLoadingCache(func(k interface{}) (interface{}, error) { return regexp.Compile(k.(string)) }, capacity)
 			xpath.RegexpCache = c
 			in.Invariant = func() string {
@@ -148,12 +163,14 @@ func poolScenario(s1, s2 string) Scenario {
 				func() string { return run(e1, "evaluate", 0) + " / " + run(e1, "evaluate", 1) },
 				func() string { return run(e2, "evaluate", 1) + " / " + run(e2, "evaluate", 0) },
 			}
-			if expected == nil {
-				f1, _ := xpath.Compile(s1)
-				f2, _ := xpath.Compile(s2)
-				expected = []string{run(f1, "evaluate", 0) + " / " + run(f1, "evaluate", 1), run(f2, "evaluate", 1) + " / " + run(f2, "evaluate", 0)}
+			in.Expect = func() []string {
+				if expected == nil {
+					f1, _ := xpath.Compile(s1)
+					f2, _ := xpath.Compile(s2)
+					expected = []string{run(f1, "evaluate", 0) + " / " + run(f1, "evaluate", 1), run(f2, "evaluate", 1) + " / " + run(f2, "evaluate", 0)}
+				}
+				return expected
 			}
-			in.Expected = expected
 			return in
 		}}
 }
@@ -170,6 +187,8 @@ func cacheScenario(capacity int, keys [][]string) Scenario {
 				return "val(" + k.(string) + ")", nil
 			}, capacity)
 			in := &Instance{}
+			var exp []string
+			in.Expect = func() []string { return exp }
 			for _, ks := range keys {
 				ks := ks
 				want := ""
@@ -180,7 +199,7 @@ func cacheScenario(capacity int, keys [][]string) Scenario {
 						want += "val(" + k + "),<nil>;"
 					}
 				}
-				in.Expected = append(in.Expected, want)
+				exp = append(exp, want)
 				in.Bodies = append(in.Bodies, func() string {
 					out := ""
 					for _, k := range ks {
